@@ -1,17 +1,23 @@
 # C10 exercise battery. Stand-alone: needs nothing but the core library, so a replay file can
-# include it verbatim. Two optional hooks are read from dynamic bindings:
+# include it verbatim. Optional hooks are read from dynamic bindings:
 #   (dyn :c10-resume)  (fn [fiber value ms] -> [signal-number value interrupted?])  budgeted resume
 #                      (the native helper); when absent plain `resume` is used (no budget).
+#   (dyn :c10-fork)    (fn [thunk cpu-seconds] -> [:exit code] | [:signal n])  runs a thunk in a
+#                      CPU-limited forked child (used for peg/match, which cannot be interrupted and
+#                      may legitimately loop: the stock compiler accepts {:main (+ "a" :main)}, which
+#                      never returns). When absent the thunk runs in-process.
 #   (dyn :c10-trace)   when truthy every step is announced on stderr ("C10-STEP <name>") so that a
 #                      crash can be attributed to the step that was running.
 #
-# Phase 1 (must terminate: bounded by the size of the input): load (unmarshal / asm), type, print
-# with %p %j %v %q, describe, hash, compare with a sibling loaded from the same bytes, marshal again and
-# load that, deep walk, collection.
-# Phase 2 (budgeted: mutated bytecode may legitimately loop): every function / fiber / peg reachable
-# from the value is called / resumed / matched with each of the argument tuples (), (nil), (1 2 3),
-# (self); functions and fibers returned by those calls are exercised too (depth 2); fibers are
-# printed, stack-traced, and everything is collected twice.
+# Phase 1 (must terminate: bounded by the size of the input): load (unmarshal / asm), print with
+# %p %j %v %q %m, describe, string, hash, use as a table key, compare with a sibling loaded from the
+# same bytes (=, compare, <), marshal again and load that, deep walk, collection while live.
+# Phase 2 (budgeted: mutated bytecode may legitimately loop): every function / fiber reachable from
+# the value is called / resumed with each of the argument tuples (), (nil), (1 2 3), (self) - the
+# value is loaded afresh for every tuple because running consumes fibers - fibers are resumed up to 3
+# times; functions and fibers returned by those calls are exercised too (depth 2); results and fibers
+# are printed and stack-traced; pegs are matched against 6 inputs; then everything is collected while
+# live and again when dead.
 
 (var- ex-step "")
 (var- ex-budget 20)
@@ -31,10 +37,10 @@
   (def b @"")
   (var in-num false)
   (each c (string/slice s 0 (min 60 (length s)))
-    (if (or (and (>= c 48) (<= c 57)))
+    (if (and (>= c 48) (<= c 57))
       (unless in-num (set in-num true) (buffer/push-byte b 78))
       (do (set in-num false)
-        (buffer/push-byte b (if (or (< c 32) (> c 126) (= c 9)) 63 c)))))
+        (buffer/push-byte b (if (or (< c 32) (> c 126)) 63 c)))))
   (string b))
 
 (def- sig-codes {0 "r" 1 "e" 2 "d" 3 "y" 12 "i" 13 "w"})
@@ -87,21 +93,20 @@
 (defn- show
   "Print a value every way the property lists; all errors are caught (raising is allowed)."
   [x]
-  (protect (string/format "%p" x))
+  (protect (string/format "%p|%v|%q|%m" x x x x))
   (protect (string/format "%j" x))
-  (protect (string/format "%v" x))
-  (protect (string/format "%q" x))
-  (protect (string/format "%m" x))
   (protect (describe x))
   (protect (string x))
+  nil)
+
+(defn- show-brief [x]
+  (protect (string/format "%p" x))
   nil)
 
 (defn- show-fiber [fb out]
   (protect (fiber/status fb))
   (protect (fiber/last-value fb))
   (protect (fiber/getenv fb))
-  (protect (fiber/maxstack fb))
-  (protect (fiber/can-resume? fb))
   (protect (with-dyns [:err @""] (debug/stacktrace fb out "")))
   nil)
 
@@ -112,6 +117,17 @@
   (case variant 0 nil 1 1 2 [1 2 3] self))
 
 (def- peg-inputs ["" "a" "abc" "xyy" "(())" "aab,c\x00\x01\xff12"])
+
+(defn- peg-battery
+  "All matches of one peg; returns a bit mask of the inputs that matched."
+  [t]
+  (var mask 0)
+  (eachp [i inp] peg-inputs
+    (def r (protect (peg/match t inp 0 :arg0 1)))
+    (when (and (r 0) (r 1)) (set mask (bor mask (blshift 1 i)))))
+  (protect (peg/find t "xxabc"))
+  (protect (peg/replace-all t "R" "abcabc"))
+  mask)
 
 (varfn exercise-target [t variant depth codes] nil)
 
@@ -146,7 +162,7 @@
         (set out (r1 1))
         (buffer/push codes code))
       (ex-mark (string "call-show/v" variant "/d" depth))
-      (show out)
+      (show-brief out)
       (show-fiber fb out)
       (follow out variant depth codes))
     :fiber
@@ -163,24 +179,31 @@
         (buffer/push codes code))
       (when (= n 0) (buffer/push codes "-"))
       (ex-mark (string "resume-show/v" variant "/d" depth))
-      (show out)
-      (show t)
+      (show-brief out)
+      (show-brief t)
       (show-fiber t out)
       (follow out variant depth codes))
     :core/peg
-    (do
-      (ex-mark (string "peg-match/v" variant))
-      (each inp peg-inputs
-        (def r (protect (peg/match t inp 0 :arg0 1)))
-        (buffer/push codes (if (r 0) (if (r 1) "m" "n") "e")))
-      (protect (peg/find t "xxabc"))
-      (protect (peg/replace-all t "R" "abcabc")))
+    (when (= variant 0)
+      (ex-mark "peg-match")
+      (if-let [fk (dyn :c10-fork)]
+        (let [[kind code] (fk (fn [] (peg-battery t)) 1)]
+          (cond
+            (and (= kind :exit) (< code 64)) (buffer/push codes "p" (string code))
+            (= kind :exit) (do
+                             # the child died with a sanitizer report (already on stderr): die the same way
+                             (eprint "C10-CHILD-EXIT " code)
+                             (eflush)
+                             (os/exit code true))
+            (= code 24) (buffer/push codes "pL")   # CPU limit: the grammar loops (legal)
+            (do (eprint "C10-CHILD-SIGNAL " code) (eflush) (os/exit 98 true))))
+        (buffer/push codes "p" (string (peg-battery t)))))
     nil))
 
 (defn exercise
-  ``Run the whole battery. `make` is a function of no arguments that loads the value (it is called
-  several times: the loaded objects are consumed by resuming them). `remarshal` is a function
-  value -> image or nil. Returns a one-line summary.``
+  ``Run the whole battery. `make` is a function of an optional image that loads the value (it is
+  called several times: loaded objects are consumed by resuming them). `remarshal` is a function
+  value -> image. Returns a one-line summary.``
   [make remarshal]
   (set ex-budget 20)
   (set ex-interrupts 0)
@@ -218,7 +241,7 @@
         (def x2 (protect (make (again 1))))
         (array/push keep x2)
         (buffer/push codes (if (x2 0) "U" "u"))
-        (when (x2 0) (ex-mark "print-again") (show (x2 1))))
+        (when (x2 0) (ex-mark "print-again") (show-brief (x2 1))))
       (ex-mark "walk")
       (def targets (walk x))
       (ex-mark "gc-live")
@@ -233,13 +256,11 @@
           (ex-mark (string "walk/v" variant))
           (each t (walk xv)
             (when (< ex-calls 40)
-              (exercise-target t variant 0 codes)))
-          (ex-mark (string "gc/v" variant))
-          (gccollect)))
-      (ex-mark "print-final")
-      (each k keep (show k))
-      (ex-mark "gc-final-live")
-      (gccollect)
+              (exercise-target t variant 0 codes))))
+        (ex-mark "print-final")
+        (show x)
+        (ex-mark "gc-final-live")
+        (gccollect))
       (array/clear keep)
       (string "A " (type x) " t" (length targets) " " codes (if (> ex-interrupts 0) " |I" "")))))
 
